@@ -21,6 +21,7 @@ func init() {
 		Rule{ID: "R12b", Doc: "answer side: fresh OPT iff the client sent one", Floor: 6, Run: r12b},
 		Rule{ID: "R12c", Doc: "upstream query built from scratch", Floor: 5, Run: r12c},
 		Rule{ID: "R12d", Doc: "ECS gating and encoding", Floor: 14, Run: r12d},
+		Rule{ID: "R09b", Doc: "Msg.Pack re-appends the popped OPT on every successful return (a response to an EDNS0 client keeps its OPT; shared with C09)", Floor: 14, AllVariants: true, Run: r09b},
 	)
 }
 
